@@ -5,6 +5,7 @@ import (
 	"encoding/json"
 	"fmt"
 	"io"
+	"math/big"
 	mbits "math/bits"
 	"os"
 	"regexp"
@@ -288,6 +289,54 @@ type cfgOut struct {
 	statedMismatch string
 }
 
+var (
+	dnsLabelRe     = regexp.MustCompile(`^[a-z0-9]([-a-z0-9]*[a-z0-9])?$`)
+	dnsSubdomainRe = regexp.MustCompile(`^[a-z0-9]([-a-z0-9]*[a-z0-9])?(\.[a-z0-9]([-a-z0-9]*[a-z0-9])?)*$`)
+	cfgVersionRe   = regexp.MustCompile(`^v1\.(0|[1-9][0-9]*)$`)
+)
+
+// cfgShouldValidate: the property's acceptance condition for a loaded configuration, written out independently
+func cfgShouldValidate(cfg J) (bool, string) {
+	str := func(k string) string { s, _ := cfg[k].(string); return s }
+	for _, k := range []string{"enforce", "audit", "warn"} {
+		switch str(k) {
+		case "privileged", "baseline", "restricted":
+		default:
+			return false, fmt.Sprintf("default %s=%q is not a level", k, str(k))
+		}
+		v := str(k + "Version")
+		if v != "latest" {
+			if !cfgVersionRe.MatchString(v) {
+				return false, fmt.Sprintf("default %s-version=%q is not latest or v1.N", k, v)
+			}
+			if n, ok := new(big.Int).SetString(v[3:], 10); !ok || !n.IsInt64() {
+				return false, "abstain" // a number no machine integer holds: whether that "parses" is C05's business, not decided here
+			}
+		}
+	}
+	for _, l := range []struct {
+		key string
+		ok  func(string) bool
+	}{
+		{"namespaces", func(e string) bool { return len(e) <= 63 && dnsLabelRe.MatchString(e) }},
+		{"runtimeClasses", func(e string) bool { return len(e) <= 253 && dnsSubdomainRe.MatchString(e) }},
+		{"usernames", func(e string) bool { return e != "" }},
+	} {
+		entries, _ := cfg[l.key].([]string)
+		seen := map[string]bool{}
+		for _, e := range entries {
+			if !l.ok(e) {
+				return false, fmt.Sprintf("exemptions.%s entry %q is malformed", l.key, e)
+			}
+			if seen[e] {
+				return false, fmt.Sprintf("exemptions.%s repeats %q", l.key, e)
+			}
+			seen[e] = true
+		}
+	}
+	return true, ""
+}
+
 var idxRe = regexp.MustCompile(`^(.*)\[(\d+)\]$`)
 
 func goLoad(data []byte) cfgOut {
@@ -553,6 +602,16 @@ func runC17(c *Ctx) {
 				}
 				if dups > 0 && reported == 0 {
 					c.Violate(Finding{Desc: fmt.Sprintf("exemptions.%s repeats an entry (%v) but validation reports no duplicate", list, entries), Key: "duplicate-accepted", Input: in, Go: o.goJ})
+				}
+			}
+			// "validation accepts exactly the configurations whose six defaults parse and whose exemption entries are well-formed
+			// and unique", with well-formedness spelled out here (RFC 1123 label for a namespace, RFC 1123 subdomain for a
+			// RuntimeClass, a non-empty user name), not taken from the validation code
+			if want, why := cfgShouldValidate(o.goJ.Cfg); why != "abstain" && want != (len(o.goJ.Errs) == 0) {
+				if want {
+					c.Violate(Finding{Desc: "validation rejects a configuration whose six defaults parse and whose exemption entries are well-formed and unique", Key: "validation-rejects-valid", Input: in, Go: o.goJ})
+				} else {
+					c.Violate(Finding{Desc: "validation accepts a configuration it must reject: " + why, Key: "validation-accepts-invalid", Input: in, Go: o.goJ})
 				}
 			}
 			if len(o.goJ.Errs) == 0 && o.goJ.statedMismatch != "" {
